@@ -14,8 +14,9 @@ HIST_NOTE = TB + (" The sequential model M1/M3 (lean/TriompheModel/Model/{Heap,H
                   "for which `M1.monitor_accepts_model` is proved: it accepts every trace of the model, for every history —), in the dev and the release profile, with sized, over-aligned, dyn and zero-sized "
                   "payloads (a ZST build of the harness), comparison/hash/format ops with armed panics, scripted panics in every user callback. "
                   "Payload universe of the correspondence: the harness's identity-tracked types.")
-SCHED_NOTE = (" Schedule half: assumed, not derived: Consistent (RC11/C++20 fragment for a location written only by RMWs), CoRW, ViaBorn, Protocol "
-              "(safe-Rust ownership discipline), MutExcl (&mut exclusivity, for the later-sharers theorems). Concrete executions are checked by the "
+SCHED_NOTE = (" Schedule half: assumed, not derived: Consistent (RC11/C++20 fragment for a location written only by RMWs) and CoRW. Protocol, ViaBorn and MutExcl "
+              "are DERIVED (WM/Ownership.lean) for every run of an operational, ownership-guarded semantics of handle programs; that this semantics is what safe "
+              "Rust lets a client do with handles is the residual assumption. Concrete executions are checked by the "
               "proved-sound Boolean checkers of WM/FinExec.lean; the model-side search (WM/Search.lean, exe drv_wm) over a template family is a search, not a theorem.")
 
 
